@@ -1,6 +1,8 @@
 import Tumfl.Props.C06
+import Tumfl.Props.Final
 #print axioms Tumfl.Props.C06_quoted
 #print axioms Tumfl.Props.C06_long
 #print axioms Tumfl.Props.C06_forms
 #print axioms Tumfl.Props.C06_wrapped
+#print axioms Tumfl.Props.C08_format_tree
 #print axioms Tumfl.Inst.escTable_ok
